@@ -81,6 +81,14 @@ fn collect_sites(n: &Node, text: &str, interfaces: &BTreeMap<String, Vec<String>
         }
       }
     }
+    "if" => {
+      // then-branch of another type than the else-branch
+      if n.children.len() >= 3 {
+        if let Some(l) = n.children[1].children.first().and_then(|b| b.loc) {
+          out.push(Site { op: "if-branch-of-another-type", loc: l, replacement: "{ ZzWrong.make() }".into(), detail: "then-branch".into() });
+        }
+      }
+    }
     "condition" => {
       if let Some(loc) = n.children.first().and_then(|c| c.loc) {
         out.push(Site { op: "if-condition-is-int", loc, replacement: "(12345)".into(), detail: "condition of `if`".into() });
@@ -145,6 +153,16 @@ fn collect_sites(n: &Node, text: &str, interfaces: &BTreeMap<String, Vec<String>
       }
     }
     "match" => {
+      // one arm (any but a lone one) gets a body of a type that occurs nowhere else: the arms of a
+      // match must agree (the helper class ZzWrong is appended to the module by the splice step)
+      let arms_all: Vec<&Node> = n.children.iter().filter(|c| c.kind == "arm").collect();
+      if arms_all.len() >= 2 {
+        for (k, a) in arms_all.iter().enumerate() {
+          if let Some(body) = a.children.last().and_then(|b| b.loc) {
+            out.push(Site { op: "match-arm-of-another-type", loc: body, replacement: "ZzWrong.make()".into(), detail: format!("arm {} of {}", k + 1, arms_all.len()) });
+          }
+        }
+      }
       // delete one variant arm when no other arm can cover its tag
       let arms: Vec<&Node> = n.children.iter().filter(|c| c.kind == "arm").collect();
       let tag_of = |a: &Node| -> Option<String> {
@@ -522,7 +540,10 @@ fn run_case(seed: u64, i: u64, corpus: &Corpus, tier: &str) -> (CaseOut, String,
   for (op, mut v) in by_op {
     rng.shuffle(&mut v);
     for s in v.into_iter().take(per_op) {
-      let Some(mutated) = splice(&mtext, &s.loc, &s.replacement) else { continue };
+      let Some(mut mutated) = splice(&mtext, &s.loc, &s.replacement) else { continue };
+      if s.replacement.contains("ZzWrong") {
+        mutated.push_str("\nclass ZzWrong { function make(): ZzWrong = ZzWrong.make() }\n");
+      }
       let mut p2 = project.clone();
       for m in p2.modules.iter_mut() {
         if m.0 == mname {
